@@ -21,6 +21,7 @@ def run(S):
     D = S.decls()
     thresholds(S, D)
     monitor_closures(S, D)
+    preimage_claim_height(S, D)
     try:
         from engine_k import runner as K
         K.run_property(S, 'C11')
@@ -193,3 +194,42 @@ def monitor_closures(S, D):
     S.no_panic('C11.c.nopanic2', E2, pre2, 'no overflow in height + ANTI_REORG_DELAY - 1', [b2])
     S.witness('C11.c.witness2', E2, pre2 + [kind == FS], some)
     S.validate('C11.c.validate2', E2, b2, n=10, extra_vectors=[(100, 100 + k, FS) for k in range(9)])
+
+
+def preimage_claim_height(S, D):
+    """C11.d: provide_payment_preimage looks for a funding spend that is still awaiting its confirmation threshold; the
+    find_map closure it applies to every queue entry must hand on the HEIGHT at which that spend confirmed, because the
+    claim built from it is dropped again only if that block is disconnected (claims are keyed by the confirmation height
+    of their inputs)."""
+    import re
+    ids = ['C11.d.spend_height_recorded', 'C11.d.nopanic', 'C11.d.witness', 'C11.d.validate']
+    if all(S._skip(o) for o in ids):
+        return
+    f = _find_fn(S, r'::provide_payment_preimage::\{closure#\d+\}::\{closure#0\}\(_1: &mut \{closure@[^}]*\}, _2: &(?:\w+::)*OnchainEventEntry\)')
+    E = S.engine()
+    mem = {}
+    key = re.search(r'\{closure@[^}]*\}', f.params[0][1]).group(0)
+    cc = E.new_cell()
+    mem[cc] = X.Clo(key, [])
+    entry = E.sym('e', f.params[1][1], mem)
+    rv = S.call(E, f, [X.Ref(cc), entry], mem)
+    hidx = D.field_index('OnchainEventEntry', 'height', hint='channelmonitor')
+    eidx = D.field_index('OnchainEventEntry', 'event', hint='channelmonitor')
+    ev = mem[entry.cell]
+    h = E.read_path(ev, (('f', hidx, 'u32'),), mem, True, 'spec').t
+    kind = X.zint(E.read_path(ev, (('f', eidx, 'chain::channelmonitor::OnchainEvent'),), mem, True, 'spec').d)
+    FS = D.variant_index('OnchainEvent', 'FundingSpendConfirmation', hint='channelmonitor')
+    some = X.zint(rv.d) == 1
+    pair = E.en_payload(rv, 'Some', 1, 0, '(bitcoin::Txid, std::option::Option<u32>)', mem, 'spec')
+    ho = E.read_path(pair, (('f', 1, 'std::option::Option<u32>'),), mem, True, 'spec')
+    h_some = X.zint(ho.d) == 1
+    h_val = E.en_payload(ho, 'Some', 1, 0, 'u32', mem, 'spec').t
+    recorded = z3.And(some, h_some, h_val == h)
+    # live replay: the claim built from this entry is dropped when the block at `h` is disconnected iff the height was recorded
+    b = Binding('preimage_after_conf_reorg_probe', [kind], [None, z3.If(recorded, 0, 1)], line_fn=lambda v: '', which='oracle_tu', panic=panic_of(E), via_solver=True, domain=[(FS, FS)])
+    S.prove(ids[0], E, [], z3.And(some == (kind == FS), z3.Implies(kind == FS, recorded)),
+            'a preimage that arrives after the counterparty commitment confirmed (but before ANTI_REORG_DELAY) yields claims that remember the height of that confirmation: the entry found is a FundingSpendConfirmation and its own height is handed on - so that a reorg of that block retracts the claims',
+            [b], bounds='every entry of the queue (any length), all u32 heights')
+    S.no_panic(ids[1], E, [], 'total', [b])
+    S.witness(ids[2], E, [kind == FS], some)
+    S.validate(ids[3], E, b, n=1, extra_vectors=[(FS,)])
